@@ -12,7 +12,7 @@ import (
 var Tokens = []string{
 	"$", "@", ".", "..", "*", "[", "]", "(", ")", "?(", ",", ":", "'", `"`, "a", "1", "-1", "1e", "9223372036854775808",
 	"==", "!=", "<", "<=", ">", ">=", "=~", "/a/", "/(/", "&&", "||", "!", " ", "true", "null", "'a'", `"a"`,
-	".f()", ".zz()", `\`, "\u00e9", "\U0001F600", "\xff", "\ufffd",
+	".f()", ".zz()", `\`, "\u00e9", "\U0001F600", "\xff", "\ufffd", "\t",
 }
 
 // Contexts wrap a token sequence so that the bounded soup reaches every sub-grammar.
